@@ -327,6 +327,13 @@ def run_sweep_di(rec, tier, seed):
                     st2, val2 = call(E.dinucleotide_shuffle, X, start=s, end=e, n=n, random_state=sd)
                     if st2 != "ok" or not torch.equal(val, val2):
                         rec.violation("dinucleotide:not_deterministic", case)
+                    # the seed is an integer whatever its integer type: numpy integers give the same deterministic result
+                    if L <= 40:
+                        for ityp in (numpy.int64, numpy.int32):
+                            st4, v4 = call(E.dinucleotide_shuffle, X, start=s, end=e, n=n, random_state=ityp(sd))
+                            st5, v5 = call(E.dinucleotide_shuffle, X, start=s, end=e, n=n, random_state=ityp(sd))
+                            if st4 != "ok" or st5 != "ok" or not torch.equal(v4, v5) or not torch.equal(v4, val):
+                                rec.violation("dinucleotide:not_deterministic:numpy_integer_seed", dict(case, seed_type=ityp.__name__))
                     # per-example seeding: row i == shuffling row i alone with seed + i
                     for b in range(B):
                         st3, v3 = call(E.dinucleotide_shuffle, X[b:b + 1], start=s, end=e, n=n, random_state=sd + b)
@@ -373,6 +380,10 @@ def run_sweep_mono(rec, tier, seed):
                 st2, val2 = call(E.shuffle, X, start=s, end=e, n=2, random_state=sd)
                 if st2 != "ok" or not torch.equal(val, val2):
                     rec.violation("shuffle:not_deterministic", case)
+                if L <= 40:
+                    st3, val3 = call(E.shuffle, X, start=s, end=e, n=2, random_state=numpy.int64(sd))
+                    if st3 != "ok" or not torch.equal(val, val3):
+                        rec.violation("shuffle:not_deterministic:numpy_integer_seed", case)
                 if not torch.equal(X, Xc):
                     rec.violation("shuffle:input_modified", case)
                     X = Xc.clone()
